@@ -282,3 +282,14 @@ def class_fields(header, cls):
             t = x["type"].get("desugaredQualType") or x["type"]["qualType"]
             out.append((x.get("name"), t))
     return out
+
+
+_SQ = None
+def squeeze(text):
+    """source text without comments and without white space (string and character literals are kept as they are): the normal form
+    every text-anchored obligation compares, so that re-formatting or commenting a statement never changes it"""
+    global _SQ
+    if _SQ is None:
+        import re
+        _SQ = re.compile(r'"(?:\\.|[^"\\\n])*"|\'(?:\\.|[^\'\\\n])*\'|/\*.*?\*/|//[^\n]*|\s+', re.S)
+    return _SQ.sub(lambda m: m.group(0) if m.group(0)[0] in "\"'" else "", text)
